@@ -1,12 +1,12 @@
 #!/bin/bash
-# usage: [ROUND=2] tools/run_seeds.sh C15 C11 ...
+# usage: [ROUND=2] [ONLY="2 3"] [ALSO="C03 C13"] tools/run_seeds.sh C15 C11 ...
 # evaluates /tmp/seedwork<ROUND>_<ID>/change_i.diff + demo_i.py written by a seeding agent working in /tmp/seed<ROUND>_<ID>
 R="${ROUND:-}"
 for id in "$@"; do
-  for i in 1 2 3 4 5; do
+  for i in ${ONLY:-1 2 3 4 5}; do
     f=/tmp/seedwork${R}_$id/change_$i.diff
     [ -f "$f" ] || continue
     echo "=== $id change_$i"
-    SEED_WT=/tmp/seed${R}_$id VERIF_WORKERS=${VERIF_WORKERS:-8} "$(dirname "$0")/try_seed.sh" $f /tmp/seedwork${R}_$id/demo_$i.py $id 2>&1 | grep -v conda
+    SEED_WT=/tmp/seed${R}_$id VERIF_WORKERS=${VERIF_WORKERS:-8} "$(dirname "$0")/try_seed.sh" $f /tmp/seedwork${R}_$id/demo_$i.py $id $ALSO 2>&1 | grep -v conda
   done
 done
